@@ -109,6 +109,10 @@ class Interp(ExprMixin):
             it_term = self.ref_term(iterable)
         finally:
             self._quiet_reads -= 1
+        # iterating over list(X) / tuple(X) is iterating over X
+        while isinstance(it_term, tuple) and len(it_term) == 4 and it_term[0] == "call" and it_term[1] in ("list", "tuple") \
+                and len(it_term[2]) == 1 and not it_term[3]:
+            it_term = it_term[2][0]
         return ("loop", self._loop_counter, kind, it_term)
 
     # ------------------------------------------------------------------
@@ -298,19 +302,23 @@ class Interp(ExprMixin):
         if t is False:
             return self.exec_block(st.orelse)
         g = self.guard_term(c)
+        return self._branch(g, lambda: self.exec_block(st.body), lambda: self.exec_block(st.orelse))
+
+    def _branch(self, g, then_fn, else_fn):
+        """run two continuations under g / not g and merge environment and heap"""
         env0, heap0 = self.frame.env, self.heap
         # then branch
         self.frame.env, self.heap = dict(env0), dict(heap0)
         self.guards.append(g)
         nk = len(self.kills)
-        term_a = self.exec_block(st.body)
+        term_a = then_fn()
         kills_a = self.kills[nk:]
         del self.kills[nk:]
         env_a, heap_a = self.frame.env, self.heap
         # else branch
         self.frame.env, self.heap = dict(env0), dict(heap0)
         self.guards[-1] = app("not", g)
-        term_b = self.exec_block(st.orelse)
+        term_b = else_fn()
         kills_b = self.kills[nk:]
         del self.kills[nk:]
         env_b, heap_b = self.frame.env, self.heap
@@ -345,8 +353,39 @@ class Interp(ExprMixin):
         return out
 
     # -- loops -----------------------------------------------------------------
-    def s_For(self, st):
-        it = self.eval(st.iter)
+    def normalize_iteration(self, it, target, reader_nodes):
+        """one spelling for the ways of walking a dict: (iterable, target, keyed)
+        - `for key, v in d.items()` whose key is never read is `for v in d.values()`;
+        - `for k, v in self.<declared Dict field>.items()` is `for k in self.<field>` with v = self.<field>[k]
+          (keyed = (field term, target) tells the caller to bind the two names itself)"""
+        while isinstance(it, tuple) and len(it) == 4 and it[0] == "call" and it[1] in ("list", "tuple") and len(it[2]) == 1 and not it[3]:
+            it = it[2][0]           # iterating over list(X) is iterating over X
+        itt = it if isinstance(it, tuple) else None
+        if itt is not None and itt[0] == "mcall" and itt[2] == "items" and not itt[3] and isinstance(target, (ast.Tuple, ast.List)) \
+                and len(target.elts) == 2 and isinstance(target.elts[0], ast.Name):
+            key = target.elts[0].id
+            reads = [n for b in reader_nodes for n in ast.walk(b) if isinstance(n, ast.Name) and n.id == key
+                     and isinstance(n.ctx, ast.Load)]
+            if not reads:
+                it = ("mcall", itt[1], "values", (), ())
+                target = target.elts[1]
+        keyed = None
+        itt = it if isinstance(it, tuple) else None
+        if itt is not None and itt[0] == "mcall" and itt[2] == "items" and not itt[3] and isinstance(target, (ast.Tuple, ast.List)) \
+                and len(target.elts) == 2 and isinstance(itt[1], tuple) and itt[1] and itt[1][0] == "attr" \
+                and not itt[1][2].startswith("_"):
+            ty = self.typeof(itt[1])
+            if ty is not None and all(a[0] == "dict" for a in P.type_alternatives(ty)):
+                keyed = (itt[1], target)
+                it = itt[1]
+        return it, target, keyed
+
+    def s_For(self, st, it=UNBOUND):
+        if it is UNBOUND:
+            it = self.eval(st.iter)
+        if isinstance(it, tuple) and it and it[0] == "phi" and len(it) == 4:
+            # the iterable was chosen by a conditional: the loop over each alternative, under its condition
+            return self._branch(it[1], lambda: self.s_For(st, it[2]), lambda: self.s_For(st, it[3]))
         items = self._known_items(it)
         if items is not None:
             # the iterable is a list whose items are known from the source: the body is
@@ -372,18 +411,23 @@ class Interp(ExprMixin):
             if st.orelse:
                 self.exec_block(st.orelse)
             return None
-        target = st.target
-        itt = it if isinstance(it, tuple) else None
-        if itt is not None and itt[0] == "mcall" and itt[2] == "items" and not itt[3] and isinstance(target, (ast.Tuple, ast.List)) \
-                and len(target.elts) == 2 and isinstance(target.elts[0], ast.Name):
-            # `for key, v in d.items()` whose key is never read is `for v in d.values()`: one spelling
-            key = target.elts[0].id
-            reads = [n for b in st.body + st.orelse for n in ast.walk(b) if isinstance(n, ast.Name) and n.id == key]
-            if not reads:
-                it = ("mcall", itt[1], "values", (), ())
-                target = target.elts[1]
+        it, target, keyed = self.normalize_iteration(it, st.target, st.body + st.orelse)
+        z = self.zip_as_range(self.ref_term(it) if not isinstance(it, tuple) else it)
+        if z is not None:
+            it = z[0]
         loop = self.new_loop("for", it, st)
-        self._run_loop(st, loop, it, target)
+        if z is not None:
+            if not hasattr(self, "_zip_loops"):
+                self._zip_loops = {}
+            self._zip_loops[loop[1]] = z[1]
+        if keyed is not None:
+            fld, tgt = keyed
+            self._run_loop(st, loop, it, None,
+                           pre_bind=lambda: (self.assign(tgt.elts[0], ("elem", loop), tgt),
+                                             self.assign(tgt.elts[1], ("idx", fld, ("elem", loop)), tgt)),
+                           extra_assigned=[n.id for n in ast.walk(tgt) if isinstance(n, ast.Name)])
+        else:
+            self._run_loop(st, loop, it, target)
         if st.orelse:
             self.exec_block(st.orelse)
         return None
@@ -446,9 +490,12 @@ class Interp(ExprMixin):
             v.visit(s)
         return bool(v.result)
 
-    def _run_loop(self, st, loop, it, target):
+    def _run_loop(self, st, loop, it, target, pre_bind=None, extra_assigned=()):
         env = self.frame.env
         assigned = self._assigned_names(st.body)
+        for n_ in extra_assigned:
+            if n_ not in assigned:
+                assigned.append(n_)
         if target is not None:
             for n in ast.walk(target):
                 if isinstance(n, ast.Name) and n.id not in assigned:
@@ -465,12 +512,30 @@ class Interp(ExprMixin):
         nk = len(self.kills)
         if target is not None:
             self.bind_loop_target(target, loop, it)
+        if pre_bind is not None:
+            pre_bind()
+        n_events = len(self.events)
+        n_guards_at_entry = len(self.guards) + nk
         try:
             self.exec_block(st.body)
         finally:
             self.loops = self.loops[:-1]
             self._loop_guard_base = self._loop_guard_base[:-1]
             del self.kills[nk:]
+        # `for e in xs: if not P(e): raise` - on every normal completion P holds for every element: an item collected in
+        # this loop under the guard P(e) is collected unconditionally
+        facts = []
+        for ev in self.events[n_events:]:
+            if ev.kind == "raise" and ev.loops and ev.loops[-1] == loop:
+                rel = ev.guards[n_guards_at_entry:] if len(ev.guards) >= n_guards_at_entry else None
+                if rel is not None and len(rel) == 1:
+                    facts.append(app("not", rel[0]))
+        if facts:
+            for holder in list(self.frame.env.values()) + list(self.heap.values()):
+                if isinstance(holder, PyList):
+                    for item in holder.items:
+                        if loop in item.loops and item.guards:
+                            item.guards = tuple(g for g in item.guards if g not in facts)
         env = self.frame.env
         for n in assigned:
             if n not in env:
@@ -490,9 +555,60 @@ class Interp(ExprMixin):
                 init = heap_before.get(k, UNBOUND)
                 self.heap[k] = ("loopout", k[1], loop, self.to_term(init), self.to_term(v))
 
+    def zip_as_range(self, it):
+        """zip(X, X[1:]) / zip(A, B[k:]) / zip(X[:-1], X[1:]): the position-wise pairs (A[i + ka], B[i + kb]) for i in
+        range(0, n) - one spelling with the index loops `for i in range(len(X) - 1): X[i], X[i + 1]`.  n is taken from the
+        argument that loses most elements to its slice (zip stops at the shortest argument; arguments are assumed to come
+        from lists of equal length - event 'zip-equal-length')"""
+        t = it if isinstance(it, tuple) else None
+        if t is None or t[:2] != ("call", "zip") or len(t[2]) < 2 or t[3]:
+            return None
+        comps = []
+        for a in t[2]:
+            k, m, base = 0, 0, a
+            if isinstance(a, tuple) and a and a[0] == "idx" and isinstance(a[2], tuple) and a[2] and a[2][0] == "slice":
+                lo, hi, st = a[2][1], a[2][2], a[2][3]
+                if st != NONE and st != K(1):
+                    return None
+                if lo == NONE:
+                    k = 0
+                elif is_const(lo) and isinstance(lo[1], int) and lo[1] >= 0:
+                    k = lo[1]
+                else:
+                    return None
+                if hi == NONE:
+                    m = 0
+                elif is_const(hi) and isinstance(hi[1], int) and hi[1] < 0:
+                    m = -hi[1]
+                else:
+                    return None
+                base = a[1]
+            elif isinstance(a, tuple) and a and a[0] in ("call", "mcall") and not (a[0] == "call" and a[1] in ("list", "tuple")):
+                return None          # dict views, generators ...: not indexable
+            comps.append((base, k, m))
+        lose = max(k + m for _, k, m in comps)
+        ref = [b for b, k, m in comps if k + m == lose][0]
+        n = ("call", "len", (ref,), ())
+        if lose:
+            n = app("-", n, K(lose))
+        if len({repr(b) for b, _, _ in comps}) > 1:
+            self.event("zip-equal-length", {"args": tuple(b for b, _, _ in comps)}, None)
+        if not any(k or m for _, k, m in comps):
+            return None              # plain zip(A, B): kept as it is (the specification rows speak of zip as well)
+        return ("range", K(0), n), [(b, k) for b, k, _ in comps]
+
     def bind_loop_target(self, target, loop, it):
         elem = ("elem", loop)
         itt = loop[3]
+        zc = getattr(self, "_zip_loops", {}).get(loop[1])
+        if zc is not None:
+            vals = [("idx", b, elem if k == 0 else app("+", elem, K(k))) for b, k in zc]
+            if isinstance(target, (ast.Tuple, ast.List)) and len(target.elts) == len(vals):
+                for e_, v_ in zip(target.elts, vals):
+                    self.assign(e_, v_, target)
+            else:
+                self.assign(target, ("tuple", tuple(vals)), target)
+            return
         if isinstance(itt, tuple) and itt and itt[0] == "call" and itt[1] == "enumerate" and isinstance(target, (ast.Tuple, ast.List)) \
                 and len(target.elts) == 2:
             self.assign(target.elts[0], ("pos", loop), target)
@@ -606,6 +722,13 @@ class Interp(ExprMixin):
         if isinstance(f, Closure):
             return self.call_closure(f, args, kwargs, node)
         ft = self.to_term(f)
+        if ft[0] == "phi" and all(isinstance(x, tuple) and x and x[0] == "ext" for x in (ft[2], ft[3])):
+            # a function chosen by a conditional (`op = operator.lt if kind == "min" else operator.gt`): the call is the
+            # conditional of the two calls
+            return mkphi(ft[1], self.to_term(self.call_ext(ft[2][1], args, kwargs, node)),
+                         self.to_term(self.call_ext(ft[3][1], args, kwargs, node)))
+        if ft[0] == "ext" and len(ft) == 2:
+            return self.call_ext(ft[1], args, kwargs, node)     # an external function that travelled through a tuple / dict
         if ft[0] == "z3func":
             return app("apply", ft, *[self.to_term(a) for a in args])
         if ft[0] == "attr":
@@ -619,7 +742,21 @@ class Interp(ExprMixin):
         return r
 
     # -- external / builtin ---------------------------------------------------------
+    OPERATOR_FUNCS = {"le": "<=", "lt": "<", "ge": ">=", "gt": ">", "eq": "==", "ne": "!=", "add": "+", "sub": "-", "mul": "*",
+                      "floordiv": "//", "truediv": "/", "mod": "%", "and_": "&", "or_": "|"}
+
     def call_ext(self, dotted, args, kwargs, node):
+        if dotted.startswith("operator.") and not kwargs:
+            fn = dotted.split(".", 1)[1]
+            if fn in self.OPERATOR_FUNCS and len(args) == 2:
+                op = self.OPERATOR_FUNCS[fn]
+                if op in ("<=", "<", ">=", ">", "==", "!="):
+                    return self.compare(op, self.to_term(args[0]), self.to_term(args[1]))
+                return self.binop(op, args[0], args[1], node)
+            if fn == "neg" and len(args) == 1:
+                return app("neg", self.to_term(args[0]))
+            if fn == "not_" and len(args) == 1:
+                return app("not", self.to_term(args[0]))
         targs = [self.to_term(a) for a in args]
         tkw = tuple((k, self.to_term(v)) for k, v in kwargs)
         if dotted.startswith("z3."):
@@ -693,6 +830,8 @@ class Interp(ExprMixin):
                 return t0 if (isinstance(t0, tuple) and t0 and t0[0] == "fstr") else ("fstr", (t0,))
             return ("call", b, tuple(self.ref_term(a) for a in args), tkw)
         if b == "print" or dotted in PURE_EXT:
+            if b == "print":
+                self.event("print", {"args": tuple(targs), "kwargs": tkw}, node)
             return NONE
         if b in ("AssertionError", "ValueError", "TypeError", "KeyError", "ModuleNotFoundError", "ImportError",
                  "Exception", "RuntimeError", "NotImplementedError", "IndexError", "AttributeError"):
@@ -753,7 +892,22 @@ class Interp(ExprMixin):
             if name in ("values", "keys", "items"):
                 return ("mcall", self.ref_term(recv), name, (), ())
             if name == "get":
-                return self.subscript(recv, self.to_term(args[0]))
+                key = self.to_term(args[0])
+                default = args[1] if len(args) > 1 else NONE
+                ents = recv.entries
+                if ents and all(is_const(k) and not l and not g for (k, v, l, g) in ents) and not is_const(key) \
+                        and self.is_static(key) and self.dom(key).vals is not None:
+                    # dispatch table read with a default: one configuration per key, the default for the other values
+                    for (k, v, l, g) in ents:
+                        if self.config.test_eq(key, self.dom(key), k[1]):
+                            return v
+                    return default
+                if is_const(key) and all(is_const(k) and not l and not g for (k, v, l, g) in ents):
+                    for (k, v, l, g) in ents:
+                        if k == key:
+                            return v
+                    return default
+                return self.subscript(recv, key)
             self.unknown(f"dict method {name}", node)
             return ("unk", f"dict.{name}")
         rt = self.to_term(recv)
